@@ -126,7 +126,7 @@ def main():
                 res, killed = {}, None
                 for prop in FILES[m["file"]]:
                     t0 = time.time()
-                    r = sh(["python3", os.path.join(VERIF, "tools", "check.py"), prop, "quick"], env=dict(os.environ, TULZ_REPO=d, VERIF_RUNS_SCALE=scale))
+                    r = sh(["python3", os.path.join(VERIF, "tools", "check.py"), prop, "quick"], env=dict(os.environ, TULZ_REPO=d, VERIF_RUNS_SCALE=scale, VERIF_ONLY_FLAVOURS=opts.get("flavours", "A")))
                     cls = re.search(r"^  class=(.*?) program=", r.stdout, re.M)
                     if r.returncode == 1 and "VIOLATION" in r.stdout:
                         res[prop] = "caught:" + (cls.group(1) if cls else "?")
